@@ -265,7 +265,11 @@ func (x *Exec) instrWrites(in ssa.Instruction, ws *writeSet, seen map[*ssa.Funct
 	case ssa.CallInstruction:
 		c := v.Common()
 		if c.IsInvoke() {
-			return // interface method calls are treated as pure/opaque
+			if strings.HasPrefix(c.Method.Name(), "PutUint") {
+				bt := types.Typ[types.Uint8]
+				ws.heaps[x.te.HeapKey(bt)] = bt
+			}
+			return // other interface method calls are treated as pure/opaque
 		}
 		if b, ok := c.Value.(*ssa.Builtin); ok {
 			switch b.Name() {
